@@ -101,20 +101,19 @@ def run(R):
                 "an exception raised by task code is not caught around the step: it unwinds the scheduler instead of becoming the task's error")
         for h in covering[:1]:
             bound = h.name
-            acc = [x for x in q.calls(h) if q.attr_call(x)[1] in ("_accept_error", "_queue_throw_error", "set_error") and x.args
-                   and isinstance(x.args[0], ast.Name) and x.args[0].id == bound]
+            acc = [c for n_, c, kind, v in ro.completing_calls(driver) if kind == "error" and any(c is x for x in ast.walk(h)) and isinstance(v, ast.Name) and v.id == bound]
             R.check(bool(acc), "C02.CAPTURE", "%s:stores" % driver.qualname, R.site(driver, h),
                     "the caught object itself is routed to the task's error",
                     "the exception caught around the step is not stored as the task's error unchanged")
-    # _accept_error -> _queue_throw_error -> set_error forward their parameter
+    # the methods on the way to set_error forward their parameter on every path on which the task is not yet computed
     at = ro.AsyncTask
-    for name, nxt in (("_accept_error", ("_queue_throw_error", "set_error")), ("_queue_throw_error", ("set_error",))):
-        m = at.methods.get(name)
-        R.need(m is not None, "anchor vanished: AsyncTask.%s" % name)
-        p0 = q.param_names(m.node)[1]
+    chain = [m for m in at.methods.values() if (ro.completes_with(m) or (None,))[0] == "error" and m.name not in ("set_error",)]
+    R.need(chain, "idiom: no AsyncTask method forwards an error to set_error")
+    for m in chain:
+        name = m.name
+        p0 = ro.completes_with(m)[1]
         cfg = cfg_of(m)
-        fw = kit.call_sites(m, lambda c: q.attr_call(c)[1] in nxt and q.dotted(q.attr_call(c)[0]) == "self" and c.args
-                            and isinstance(c.args[0], ast.Name) and c.args[0].id == p0)
+        fw = [(n, c) for n, c, kind, v in ro.completing_calls(m) if kind == "error" and isinstance(v, ast.Name) and v.id == p0]
 
         def computed(nd):
             if nd.kind != "test":
